@@ -69,8 +69,8 @@ CHECKS["C12"] = ("fvh-blackbox", "twin-server differential over generated histor
          "status replies and nil replies reach scripts in a non-standard form pinned by the repository's tests (K10, K11: compared modulo exactly that); return conversions the tests pin differently (false, floats, empty table) are not generated; a script's effect on blocked clients is C13's", "3/C12")
 
 CHECKS["C13"] = ("fvh-blackbox", "model-based generated histories of sequenced multi-client blocking operations against a reference model of blocking-pop semantics, plus unsequenced concurrent bursts with a conservation oracle",
-         "generated histories of four clients over three lists (BLPOP/BRPOP on 1-3 keys with finite/infinite timeouts; pushes of 1-4 unique elements sent directly, in MULTI/EXEC, from a script; LPOP/RPOP; a pipelined push+pop batch; waits; disconnects of blocked clients), sequenced by PING round trips on a control connection so that a reference model decides every reply: FIFO service with head/tail by direction, prompt service, nil never before the timeout and always within 4 s after it, no nil for infinite waits, nothing for clients to whom nothing is due, LRANGE == pushed minus delivered after every step, wind-down residue checks. Unsequenced bursts (3 pushers, 5 blocking poppers, disconnects while blocked) checked for conservation only.",
-         "schedules inside one event-loop iteration are sampled by the bursts only; the 4 s promptness bound is the harness's choice; the registry is observed through behaviour (later pushes stay, later calls run their full timeout), not through a hook", "3/C13")
+         "generated histories of four clients over three lists (BLPOP/BRPOP on 1-3 keys with finite/infinite timeouts; pushes of 1-4 unique elements sent directly, in MULTI/EXEC, from a script; LPOP/RPOP; a pipelined push+pop batch; waits; disconnects of blocked clients), sequenced by PING round trips on a control connection so that a reference model decides every reply: FIFO service with head/tail by direction, prompt service, nil never before the timeout and always within 8 s after it, no nil for infinite waits, nothing for clients to whom nothing is due, LRANGE == pushed minus delivered after every step, wind-down residue checks. Unsequenced bursts (3 pushers, 5 blocking poppers, disconnects while blocked) checked for conservation only.",
+         "schedules inside one event-loop iteration are sampled by the bursts only; the 8 s promptness bound is the harness's choice; the registry is observed through behaviour (later pushes stay, later calls run their full timeout), not through a hook", "3/C13")
 
 CHECKS["C14"] = ("fvh-blackbox", "model-based generated multi-client pub/sub histories against a reference model of the subscription sets (exact frames per subscriber, PUBLISH counts, acknowledgement counts)",
          "generated histories of four subscriber and two publisher connections (SUBSCRIBE/PSUBSCRIBE 1-3 names incl. repeats, UNSUBSCRIBE/PUNSUBSCRIBE named/all/not-subscribed/nothing-subscribed, PUBLISH with binary, empty, CRLF, RESP-looking and up to 70 KB payloads, pipelined publish bursts, disconnect+reconnect) over overlapping channels and glob patterns; a model decides every acknowledgement with its remaining count, the PUBLISH integer, and per subscriber exactly the due message/pmessage frames byte for byte in publish order; after every step nobody has an extra frame.",
